@@ -624,7 +624,23 @@ def run_load_reapply(ctx: Ctx) -> RuleResult:
                                                     'loaded' if q in load_funcs and q not in build_funcs else 'built'),
                                 construct='re-module:%s' % a.value.id)
     res.require_instances(n_mod, 4, 'regexp-module selections')
-    # every other allowed option consumed while building is consumed while loading
+    # the parser object itself: what its constructor takes from the options when building, deserialize() takes when loading
+    dpf = repo.func('lark.parser_frontends:_deserialize_parsing_frontend')
+    dcalls = [c for c in dpf.body_nodes() if isinstance(c, ast.Call) and isinstance(c.func, ast.Attribute) and c.func.attr == 'deserialize' and c.args
+              and norm(c.args[0]).endswith("['parser']")]
+    lp_des = repo.cls('lark.parsers.lalr_parser:LALR_Parser').find_method('deserialize')
+    if len(dcalls) != 1 or lp_des is None:
+        raise AnalysisError('R-LOAD-REAPPLY: cannot find the LALR_Parser.deserialize call of the load path')
+    dnames = lp_des.positional_names()
+    bound_, _ex = bind_call(dcalls[0], dnames)
+    for pn_ in dnames:
+        if pn_ in defaults and pn_ in allowed:
+            a_ = bound_.get(pn_)
+            ok = a_ is not None and any(isinstance(x, ast.Attribute) and x.attr == pn_ and norm(x.value).endswith('options') for x in ast.walk(a_))
+            res.ob(dpf.loc(dcalls[0]), 'load path: LALR_Parser.deserialize(..., %s=options.%s)' % (pn_, pn_), ok)
+            if not ok:
+                res.finding(dpf, dcalls[0], 'option %s is load-allowed and LALR_Parser.deserialize takes it, but the load path does not pass options.%s: the '
+                            'loaded parser runs with the default while the options object says otherwise' % (pn_, pn_), construct='deserialize-arg:%s' % pn_)
     for o in sorted(allowed):
         fr = [x for x in fresh.get(o, []) if x[0].qual != init.qual or not _in_cache_block(x[1])]
         if not fr:
@@ -635,8 +651,21 @@ def run_load_reapply(ctx: Ctx) -> RuleResult:
             res.finding(load, load.node, 'option %s may be passed when loading but nothing on the load path reads it' % o,
                         construct='option:' + o)
     # options that are not load-allowed must be refused by _load
-    refuses = any(isinstance(n, ast.Raise) for n in load.body_nodes()) and \
-        any('_LOAD_ALLOWED_OPTIONS' in norm(n) for n in load.body_nodes() if isinstance(n, ast.If))
+    kwn = load.node.args.kwarg.arg if load.node.args.kwarg else 'kwargs'
+    gifs = [n for n in load.body_nodes() if isinstance(n, ast.If) and '_LOAD_ALLOWED_OPTIONS' in norm(n.test) and any(isinstance(x, ast.Raise) for x in ast.walk(n))]
+    refuses = False
+    if len(gifs) == 1:
+        t_ = gifs[0].test
+        # "given, not load-allowed, and a real option":  (set(kwargs) - ALLOWED) & set(defaults)   (operands of & in either order)
+        if isinstance(t_, ast.BinOp) and isinstance(t_.op, ast.BitAnd):
+            sides = [t_.left, t_.right]
+            diff_ = [x for x in sides if isinstance(x, ast.BinOp) and isinstance(x.op, ast.Sub) and norm(x.left) == 'set(%s)' % kwn and norm(x.right) == '_LOAD_ALLOWED_OPTIONS']
+            dfl_ = [x for x in sides if norm(x) in ('set(LarkOptions._defaults)', 'set(%s._defaults)' % 'LarkOptions', 'LarkOptions._defaults.keys()')]
+            refuses = len(diff_) == 1 and len(dfl_) == 1
+        elif isinstance(t_, ast.Call) and norm(t_.func) == 'any':
+            refuses = '_LOAD_ALLOWED_OPTIONS' in norm(t_) and 'not in' in norm(t_) and '_defaults' in norm(t_)
+    elif not gifs:
+        pass
     res.ob(load.loc(), '_load refuses options outside _LOAD_ALLOWED_OPTIONS', refuses)
     if not refuses:
         res.finding(load, load.node, '_load no longer refuses options that change how the grammar is compiled', construct='refuse')
